@@ -669,11 +669,25 @@ func (g *generator) extractDefault(v cue.Value) (any, error) {
 }
 
 func (g *generator) declareStringConstraints(v cue.Value) ([]ast.TypeConstraint, error) {
+	// if the string has a default value (`string & strings.MinRunes(2) | *"abc"`), strip it
+	// from `v` before trying to extract constraints.
+	if _, hasDefault := v.Default(); hasDefault {
+		_, disjuncts := v.Expr()
+		for _, disjunct := range disjuncts {
+			if !disjunct.IsConcrete() {
+				v = disjunct
+				break
+			}
+		}
+	}
+
 	typeAndConstraints := appendSplit(nil, cue.AndOp, v)
 
-	// nothing to do
+	// nothing to do, unless the only expression is itself a constraint (`strings.MinRunes(2)`)
 	if len(typeAndConstraints) == 1 {
-		return nil, nil
+		if op, _ := typeAndConstraints[0].Expr(); op != cue.CallOp {
+			return nil, nil
+		}
 	}
 
 	// the constraint allows cue to infer a concrete value
